@@ -147,6 +147,11 @@ pub mod verif_hooks_residuals {
         r.dot_xPx = v;
         r.Px.fill(v);
     }
+
+    /// overwrite the stored product `Px` only
+    pub fn fill_px<T: FloatT>(r: &mut DefaultResiduals<T>, v: T) {
+        r.Px.fill(v);
+    }
 }
 
 // Add-only access for the external verification harness (/verif, properties C01-C03).
